@@ -10,6 +10,7 @@ import (
 
 	"github.com/rulego/streamsql"
 	"github.com/rulego/streamsql/rsql"
+	"github.com/rulego/streamsql/types"
 )
 
 // ---------------------------------------------------------------- reference grammar
@@ -272,6 +273,67 @@ func genStmt(rng *rand.Rand) refStmt {
 	add(kwT("FROM"), idT(src))
 	exp("source", hx(src))
 
+	// FROM alias and stream-table JOINs (direct statements only)
+	salias := ""
+	var joinLines [][]string
+	if !aggregate && rng.Intn(4) == 0 {
+		if rng.Intn(3) > 0 {
+			salias = pick(rng, []string{"s0", "st"})
+			if rng.Intn(2) == 0 {
+				add(kwT("AS"))
+			}
+			add(idT(salias))
+			tag("from-alias")
+		}
+		nj := 1 + rng.Intn(2)
+		for j := 0; j < nj; j++ {
+			jt := "INNER"
+			switch rng.Intn(4) {
+			case 0:
+				add(kwT("JOIN"))
+			case 1:
+				add(kwT("INNER"), kwT("JOIN"))
+			case 2:
+				add(kwT("LEFT"), kwT("JOIN"))
+				jt = "LEFT"
+			default:
+				add(kwT("LEFT"), kwT("OUTER"), kwT("JOIN"))
+				jt = "LEFT"
+			}
+			table := []string{"devices", "meta"}[j]
+			add(idT(table))
+			talias := table
+			switch rng.Intn(3) {
+			case 0:
+				talias = []string{"d", "m"}[j]
+				add(kwT("AS"), idT(talias))
+			case 1:
+				talias = []string{"d", "m"}[j]
+				add(idT(talias))
+			}
+			add(kwT("ON"))
+			line := []string{"join", strconv.Itoa(j), jt, hx(table), hx(talias)}
+			np := 1 + rng.Intn(2)
+			for k := 0; k < np; k++ {
+				if k > 0 {
+					add(kwT("AND"))
+				}
+				sf := pick(rng, []string{"deviceId", "a", "grp"})
+				tf := pick(rng, []string{"id", "k", "profile.id"})
+				left := sf
+				if salias != "" {
+					left = salias + "." + sf
+				}
+				add(idT(left), opT("eq1"), idT(talias+"."+tf))
+				line = append(line, hx(sf)+"="+hx(tf))
+			}
+			joinLines = append(joinLines, line)
+		}
+		tag("join")
+	}
+	exp("salias", hx(salias))
+	st.exp = append(st.exp, joinLines...)
+
 	// WHERE
 	where := ""
 	if rng.Intn(3) > 0 {
@@ -490,6 +552,8 @@ func genStmt(rng *rand.Rand) refStmt {
 	}
 	exp("limit", strconv.Itoa(limit))
 
+	exp("mr", "f")
+
 	// configuration level (types.Config as returned by rsql.Parse)
 	exp("c-distinct", btok(distinct))
 	exp("c-limit", strconv.Itoa(limit))
@@ -514,11 +578,17 @@ func genStmt(rng *rand.Rand) refStmt {
 	exp("c-with", hx(ts), itoa(unit), itoa(ooo), itoa(late), itoa(idle), tc)
 	exp(append([]string{"c-orderby"}, ob[1:]...)...)
 	exp("c-trigger", hx(trigger))
+	if aggregate {
+		exp("c-mode", "1")
+	} else {
+		exp("c-mode", "0")
+	}
 	return st
 }
 
-var predictedKeys = []string{"err", "distinct", "field", "source", "where", "groupby", "window", "trigger", "having", "with", "orderby", "limit",
-	"c-distinct", "c-limit", "c-cond", "c-groupfields", "c-needwindow", "c-window", "c-with", "c-orderby", "c-trigger"}
+var predictedKeys = []string{"err", "distinct", "field", "source", "salias", "join", "where", "groupby", "window", "trigger", "having", "with", "orderby", "limit",
+	"mr", "mr-partition", "mr-orderby", "mr-measure", "mr-rows", "mr-pattern", "mr-within", "mr-define",
+	"c-distinct", "c-limit", "c-cond", "c-groupfields", "c-needwindow", "c-window", "c-with", "c-orderby", "c-trigger", "c-mode"}
 
 // ---------------------------------------------------------------- layouts
 
@@ -602,7 +672,12 @@ func caseTo(w string, upper bool) string {
 
 func genStmtCase(rng *rand.Rand, idx int) Case {
 	var c Case
-	st := genStmt(rng)
+	var st refStmt
+	if rng.Intn(8) == 0 {
+		st = genMRStmt(rng)
+	} else {
+		st = genStmt(rng)
+	}
 	c.Cfg = append(c.Cfg, []string{"kind", "statement"})
 	c.Cfg = append(c.Cfg, append([]string{"keys"}, predictedKeys...))
 	for _, e := range st.exp {
@@ -726,6 +801,14 @@ func parseObs(sql string) (out [][]string) {
 		out = append(out, []string{"field", strconv.Itoa(i), hx(canonTokens(f.Expression)), hx(f.Alias)})
 	}
 	out = append(out, []string{"source", hx(stmt.Source)})
+	out = append(out, []string{"salias", hx(stmt.SourceAlias)})
+	for j, jc := range stmt.JoinConfigs {
+		line := []string{"join", strconv.Itoa(j), jc.JoinType, hx(jc.Table), hx(jc.Alias)}
+		for _, pr := range jc.OnPairs {
+			line = append(line, hx(pr.StreamField)+"="+hx(pr.TableField))
+		}
+		out = append(out, line)
+	}
 	out = append(out, []string{"where", hx(stmt.Condition)})
 	gb := []string{"groupby"}
 	for _, g := range stmt.GroupBy {
@@ -747,6 +830,7 @@ func parseObs(sql string) (out [][]string) {
 	}
 	out = append(out, ob)
 	out = append(out, []string{"limit", strconv.Itoa(stmt.Limit)})
+	out = append(out, mrObs(stmt.MatchRecognize)...)
 
 	out = append(out, []string{"c-distinct", btok(cfg.Distinct)})
 	out = append(out, []string{"c-limit", strconv.Itoa(cfg.Limit)})
@@ -771,13 +855,14 @@ func parseObs(sql string) (out [][]string) {
 	}
 	out = append(out, co)
 	out = append(out, []string{"c-trigger", hx(wc.TriggerCondition)})
+	out = append(out, []string{"c-mode", strconv.Itoa(int(cfg.Mode))})
 
 	// unpredicted: the rewritten HAVING text and the complete configuration, canonical JSON (map keys sorted
 	// by encoding/json; the performance sub-configurations are constant zero values at this stage)
 	out = append(out, []string{"c-having", hx(canonKw(cfg.Having))})
 	out = append(out, []string{"c-json", hx(canonJSON(cfg))})
 	// direct (non-aggregating) statements are also executed: the rows they produce must not depend on the layout
-	if !cfg.NeedWindow {
+	if cfg.Mode == types.ExecDirect {
 		out = append(out, []string{"x-rows", hx(execDirect(sql))})
 	}
 	return out
